@@ -399,17 +399,20 @@ static ABT_pool mkpool(wl_rt *rt, int flags, int es)
  * units ask ABT_sched_has_to_stop and ABT_xstream_check_events.  Pools are served round-robin,
  * so no pool can be starved by a perpetually yielding unit in another one. ---- */
 typedef struct usched {
-    int n, freq, legacy_run;
+    int n, freq, legacy_run, coop;
     ABT_pool pools[4];
 } usched;
 static ABT_sched_config_var us_cv_freq = { .idx = 0, .type = ABT_SCHED_CONFIG_INT };
 static ABT_sched_config_var us_cv_legacy = { .idx = 1, .type = ABT_SCHED_CONFIG_INT };
+/* cooperative: a scheduler that runs as a work unit itself (stacked) yields to its own
+ * scheduler whenever its pools are empty, so that the units its blocked units wait for can run */
+static ABT_sched_config_var us_cv_coop = { .idx = 2, .type = ABT_SCHED_CONFIG_INT };
 static long us_units_run;
 static int us_init(ABT_sched sched, ABT_sched_config config)
 {
     usched *d = (usched *)calloc(1, sizeof *d);
     d->freq = 1;
-    ABT_OK(ABT_sched_config_read(config, 2, &d->freq, &d->legacy_run));
+    ABT_OK(ABT_sched_config_read(config, 3, &d->freq, &d->legacy_run, &d->coop));
     ABT_OK(ABT_sched_get_num_pools(sched, &d->n));
     SIM_CHECK(d->n >= 1 && d->n <= 4, "infra:usched-pools", "user scheduler with %d pools", d->n);
     ABT_OK(ABT_sched_get_pools(sched, d->n, 0, d->pools));
@@ -451,6 +454,8 @@ static void us_run(ABT_sched sched)
             if (stop == ABT_TRUE)
                 break;
             ABT_OK(ABT_xstream_check_events(sched));
+            if (!found && d->coop)
+                ABT_OK(ABT_thread_yield());
         }
     }
 }
@@ -472,13 +477,21 @@ static ABT_pool us_get_migr_pool(ABT_sched sched)
     us_migr_pool_calls++;
     return p;
 }
+static int us_next_coop;
+ABT_sched wl_make_user_sched_coop(int n, ABT_pool *pools)
+{
+    us_next_coop = 1;
+    ABT_sched s = wl_make_user_sched(n, pools);
+    us_next_coop = 0;
+    return s;
+}
 ABT_sched wl_make_user_sched(int n, ABT_pool *pools)
 {
     ABT_sched_def def = { .type = ABT_SCHED_TYPE_ULT, .init = us_init, .run = us_run, .free = us_free, .get_migr_pool = plan_bool() ? us_get_migr_pool : NULL };
     ABT_sched_config cfg;
     ABT_sched sched;
     static const int freqs[] = { 1, 2, 5, 16 };
-    ABT_OK(ABT_sched_config_create(&cfg, us_cv_freq, freqs[plan_n(4)], us_cv_legacy, (int)plan_n(2), ABT_sched_config_automatic, ABT_TRUE, ABT_sched_config_var_end));
+    ABT_OK(ABT_sched_config_create(&cfg, us_cv_freq, freqs[plan_n(4)], us_cv_legacy, (int)plan_n(2), us_cv_coop, us_next_coop, ABT_sched_config_automatic, ABT_TRUE, ABT_sched_config_var_end));
     ABT_OK(ABT_sched_create(&def, n, pools, cfg, &sched));
     ABT_OK(ABT_sched_config_free(&cfg));
     return sched;
@@ -706,7 +719,7 @@ void wl_actors_join(wl_rt *rt, wl_actor *a, int n)
         }
         else
             ABT_OK(ABT_thread_free(&a[i].th));
-        SIM_CHECK(a[i].done, "actor-incomplete", "actor %d (%s) joined but its body did not finish", i, wl_actor_kind_names[a[i].kind]);
+        SIM_CHECK(a[i].done || a[i].cancelled_ok, "actor-incomplete", "actor %d (%s) joined but its body did not finish", i, wl_actor_kind_names[a[i].kind]);
         sim_progress();
     }
 }
